@@ -291,6 +291,54 @@ Section Hist.
   Qed.
 End Hist.
 
+(* ---------------------------------------------------------------- (3b) other machine objects in between *)
+Section World.
+  Variable check_tbl run_tbl : list transition.
+  Variable step_ok : step -> bool -> bool.
+  Hypothesis Hcwf : check_tbl_wf check_tbl = true.
+  Hypothesis Hrwf : run_tbl_wf run_tbl = true.
+  Variable mc_step_of : list step -> Z.
+
+  (* calls on other objects do not change object a *)
+  Lemma whistory_projection a n p : forall ops w,
+    (forall o, In o ops -> w_mid o = a -> w_n o = n /\ w_p o = p) ->
+    whistory check_tbl run_tbl step_ok mc_step_of a w ops
+    = hhistory check_tbl run_tbl step_ok (mc_step_of p) n p (w a)
+        (map w_call (filter (fun o => Z.eqb (w_mid o) a) ops)).
+  Proof.
+    induction ops as [|o r IH]; intros w Hops; [reflexivity|].
+    cbn [whistory filter]. unfold wstep.
+    destruct (Z.eqb (w_mid o) a) eqn:E.
+    - apply Z.eqb_eq in E. destruct (Hops o (or_introl eq_refl) E) as [En Ep].
+      rewrite En, Ep, E. cbn [map hhistory].
+      destruct (do_hcall check_tbl run_tbl step_ok (mc_step_of p) n p (w a) (w_call o)) as [ms' out].
+      f_equal. rewrite IH by (intros o' H'; apply Hops; now right).
+      rewrite Z.eqb_refl. reflexivity.
+    - destruct (do_hcall check_tbl run_tbl step_ok (mc_step_of (w_p o)) (w_n o) (w_p o) (w (w_mid o)) (w_call o))
+        as [ms' out].
+      rewrite IH by (intros o' H'; apply Hops; now right).
+      rewrite Z.eqb_sym, E. reflexivity.
+  Qed.
+
+  (* Every sequence of check/run calls in one process, on any machine objects, with any
+     pipelines (accepted or not) on the OTHER objects: the calls made on object a -- all with
+     the accepted pipeline p -- each return what the first would return. *)
+  Theorem whistory_spec a n p d : forall ops w,
+    (forall o, In o ops -> w_mid o = a -> w_n o = n /\ w_p o = p) ->
+    clean (fst (w a)) -> (m_rdm (fst (w a)) = true -> has_kind Val p = true) -> snd (w a) = 1%Z ->
+    mc_step_of p = 1%Z ->
+    path_ok Begin p = Some d -> accept_b step_ok (has_kind Val p) p = true ->
+    (n >= 1)%nat -> ((n > 1)%nat -> has_kind Msc p = true) ->
+    whistory check_tbl run_tbl step_ok mc_step_of a w ops
+    = map (hexpected n p) (map w_call (filter (fun o => Z.eqb (w_mid o) a) ops)).
+  Proof.
+    intros ops w Hops Hc Hr Hs Hmc Hp Ha Hn Hm.
+    rewrite (whistory_projection a n p ops w Hops).
+    destruct (w a) as [m st] eqn:Ew. cbn [fst snd] in *.
+    apply (hhistory_spec check_tbl run_tbl step_ok Hcwf Hrwf (mc_step_of p) n p d); auto.
+  Qed.
+End World.
+
 (* ---------------------------------------------------------------- (4) shared dictionaries *)
 Section Dicts.
   Variable V : Type.
